@@ -342,11 +342,16 @@ def run_hypothesis(ctx, strategy, body, max_examples, seed_offset=0, shrink=True
 
     body also receives ctx.stats through closure for counting; cases must be JSON-able.
     """
+    return hyp_run(ctx.seed * 1000 + seed_offset, strategy, body, max_examples, shrink)
+
+
+def hyp_run(seed_value, strategy, body, max_examples, shrink=True):
+    """Same, with an explicit seed (used inside sharded workers: one seed per process)."""
     from hypothesis import given, seed
     from hypothesis.errors import FailedHealthCheck, Unsatisfiable, Flaky
     last = {}
 
-    @seed(ctx.seed * 1000 + seed_offset)
+    @seed(seed_value)
     @hyp_settings(max_examples, shrink=shrink)
     @given(strategy)
     def test(case):
